@@ -602,6 +602,7 @@ func (r *rw) selectStmt(s *ast.SelectStmt) string {
 		a := arm{cc: cc, idx: -1}
 		if cc.Comm == nil {
 			hasDefault = true
+			r.count("select-default")
 			arms = append(arms, a)
 			continue
 		}
